@@ -74,7 +74,14 @@ func (poolView) Gen(r *Rng, i int) string {
 				ops = append(ops, fmt.Sprintf("C %d", r.Intn(np)))
 			}
 		case k < 19:
-			ops = append(ops, fmt.Sprintf("S %d %d", r.Intn(np), r.Intn(2)))
+			if rep == 1 && r.Bool() {
+				// the replica is promoted and demoted again with requests in between: the connections dialled while
+				// it was a master must not serve reads once it is a replica again
+				ops = append(ops, "S 1 0", "r", "S 1 1", "r")
+				conns += 2
+			} else {
+				ops = append(ops, fmt.Sprintf("S %d %d", r.Intn(np), r.Intn(2)))
+			}
 		default:
 			// lose everything dialled so far, then ask again
 			for c := 0; c < conns && c < 6; c++ {
